@@ -1,32 +1,33 @@
-(* C04 driver for the plain BDD kind: replays, on every lifted snapshot of the
-   trace of harness/src/bin/h_dd.rs, the quantification / restriction /
-   apply-and-quantify / substitution operations recorded since the previous
-   snapshot on the extracted Gallina models of coq/DD/Quant.v (the models the
-   theorems C04_* of coq/Props/C04.v are about) and compares with what the real
-   code returned.
+(* C04 driver for the plain BDD and the complement-edge (BCDD) kind: replays, on
+   every lifted snapshot of the trace of harness/src/bin/h_dd.rs, the
+   quantification / restriction / apply-and-quantify / substitution operations
+   recorded since the previous snapshot on the extracted Gallina models of
+   coq/DD/Quant.v (bdd) and coq/DD/QuantBcdd.v (bcdd) - the models the theorems
+   C04_* / C04_bcdd_* of coq/Props/C04.v are about - and compares with what the
+   real code returned.
 
    EXISTS/FORALL/UNIQUE, AEX/AFA/AUQ, RESTRICT, SUBST
            The variable set / literal cube is built on the snapshot with the
-           extracted mk_var + apply_bin(And) (as the harness builds it with
-           var/not_var/and), then the extracted entry point (quant_edge,
-           apply_quant_edge, restrict_edge, substitute_edge) is run with the
-           operands' references.  The snapshot already contains the real
+           extracted mk_var + and (as the harness builds it with
+           var/not_var/and), then the extracted entry point ([c]quant_edge,
+           [c]apply_quant_edge, [c]restrict_edge, [c]substitute_edge) is run
+           with the operands' edges.  The snapshot already contains the real
            result; the table is canonical (C01), so the model - whose result
            denotes the spec function by the C04 theorems - must return exactly
-           the reference of the real result.
+           the edge of the real result.
            (prop)  the value table of the model's result differs from the value
                    table of the real result;
-           (corr)  same function but another reference, or the model is
-                   undefined although the hypotheses hold.
+           (corr)  same function but another edge, or the model is undefined
+                   although the hypotheses hold.
    The model's table and cache are threaded through all operations of one
    snapshot window (so cache hits, set_pop'ed keys and the reuse of one
-   substitution id / the alternation of several ids are exercised exactly as
-   the theorems state them: any QCacheOK cache); the cache is a hash table
-   behind the abstract cget/cadd interface (it only ever serves what was
-   added).  Every MKSUBST gets a fresh model id (new_substitution_id).
-   Every 8th operation is replayed a second time without any cache and with the
-   reverse operand order: same reference required.
-   The hypothesis of the theorems (bdd_ok_b = BddOK) is evaluated on every
+   substitution id / the alternation of several ids are exercised as the
+   theorems state them: any cache satisfying the invariant); the cache is a
+   hash table behind the abstract cget/cadd interface (it only ever serves what
+   was added).  Every MKSUBST gets a fresh model id (new_substitution_id).
+   Every 8th operation is replayed a second time from the plain snapshot
+   without any cache and with the reverse operand order: same edge required.
+   The hypothesis of the theorems (bdd_ok_b / bcok_b) is evaluated on every
    snapshot; a failure is a corr verdict.  Cases of other kinds are skipped. *)
 open Conv
 open Dd_types
@@ -39,24 +40,146 @@ let bop_of = function
   | "EQUIV" -> Some Model.OEquiv | "NAND" -> Some Model.ONand | "NOR" -> Some Model.ONor
   | "IMP" -> Some Model.OImp | "IMPS" -> Some Model.OImpStrict | _ -> None
 
-(* an operand order standing for the address order of the code, and its reverse *)
-let key (r : Model.ref) : int * Z.t =
+(* operand orders standing for the address order of the code, and their reverses *)
+let rkey (r : Model.ref) : int * Z.t =
   match r with Model.RT t -> (0, z_of_n t) | Model.RN p -> (1, z_of_pos p)
-let gt_fwd a b = compare (key a) (key b) > 0
-let gt_rev a b = compare (key b) (key a) > 0
+let ekey (e : Model.edge) = (rkey e.Model.eref, e.Model.etag)
+let gt_fwd a b = compare (rkey a) (rkey b) > 0
+let gt_rev a b = compare (rkey b) (rkey a) > 0
+let lt_fwd a b = compare (ekey a) (ekey b) < 0
+let lt_rev a b = compare (ekey b) (ekey a) < 0
 
 (* the apply cache behind the abstract interface: a hash table *)
-type cache = (Model.n * Model.ref list, Model.ref) Hashtbl.t
-let hget (c : cache) (k : Model.n) (a : Model.ref list) : Model.ref option = Hashtbl.find_opt c (k, a)
-let hadd (c : cache) (k : Model.n) (a : Model.ref list) (r : Model.ref) : cache = Hashtbl.replace c (k, a) r; c
+let hget c k a = Hashtbl.find_opt c (k, a)
+let hadd c k a r = Hashtbl.replace c (k, a) r; c
 
-let show_ref (r : Model.ref) = show_edge { Model.eref = r; Model.etag = false }
+let untagged (r : Model.ref) : Model.edge = { Model.eref = r; Model.etag = false }
+
+(* what a kind provides: every run returns the result table and the result edge;
+   [cached = true] threads the engine's table and cache, [false] starts from the
+   given snapshot with no cache and the reverse operand order *)
+type engine = {
+  hyp : Model.snap -> bool;
+  reset : Model.snap -> unit;
+  quant : bool -> Model.quantifier -> Model.edge -> int -> (Model.snap * Model.edge) option;
+  aquant : bool -> Model.quantifier -> Model.bop -> Model.edge -> Model.edge -> int -> (Model.snap * Model.edge) option;
+  restr : bool -> Model.edge -> int -> int -> (Model.snap * Model.edge) option;
+  subst : bool -> Model.edge -> (int * Model.edge) list -> int -> (Model.snap * Model.edge) option;
+}
+
+let bdd_engine () : engine =
+  let snap0 = ref None and cur = ref None in
+  let cache = ref (Hashtbl.create 1024) in
+  let n_of s = int_of_nat (Model.nlevels s) in
+  let cube gt cget cadd (s : Model.snap) cc pos neg =
+    let n = n_of s in
+    let fuel = nat (n + 1) in
+    let st = ref (match Model.mk_const s true with Some t -> Some (s, cc, t) | None -> None) in
+    for v = n - 1 downto 0 do
+      let lit = if (pos lsr v) land 1 = 1 then Some false else if (neg lsr v) land 1 = 1 then Some true else None in
+      match !st, lit with
+      | Some (s1, c1, acc), Some negd ->
+        (match Model.mk_var s1 (nat v) negd with
+         | Some (s2, x) ->
+           (match Model.apply_bin gt cget cadd fuel s2 c1 Model.OAnd x acc with
+            | Some ((s3, c3), r) -> st := Some (s3, c3, r)
+            | None -> st := None)
+         | None -> st := None)
+      | _ -> ()
+    done;
+    !st in
+  let go cached (f : (Model.ref -> Model.ref -> bool) -> _ -> _ -> Model.snap -> _ -> ((Model.snap * _) * Model.ref) option)
+         (f0 : (Model.ref -> Model.ref -> bool) -> _ -> _ -> Model.snap -> unit -> ((Model.snap * unit) * Model.ref) option) =
+    if cached then
+      (match !cur with
+       | None -> None
+       | Some s ->
+         (match f gt_fwd hget hadd s !cache with
+          | Some ((s', _), r) -> cur := Some s'; Some (s', untagged r)
+          | None -> None))
+    else
+      (match !snap0 with
+       | None -> None
+       | Some s -> (match f0 gt_rev Model.nc_get Model.nc_add s () with Some ((s', _), r) -> Some (s', untagged r) | None -> None)) in
+  { hyp = Model.bdd_ok_b;
+    reset = (fun s -> snap0 := Some s; cur := Some s; cache := Hashtbl.create 1024);
+    quant = (fun cached q f mask ->
+        let body gt cget cadd s cc = match cube gt cget cadd s cc mask 0 with
+          | Some (s1, c1, vars) -> Model.quant_edge gt cget cadd s1 c1 q f.Model.eref vars | None -> None in
+        go cached body body);
+    aquant = (fun cached q o f g mask ->
+        let body gt cget cadd s cc = match cube gt cget cadd s cc mask 0 with
+          | Some (s1, c1, vars) -> Model.apply_quant_edge gt cget cadd s1 c1 q o f.Model.eref g.Model.eref vars | None -> None in
+        go cached body body);
+    restr = (fun cached f pos neg ->
+        let body gt cget cadd s cc = match cube gt cget cadd s cc pos neg with
+          | Some (s1, c1, vars) -> Model.restrict_edge cget cadd s1 c1 f.Model.eref vars | None -> None in
+        go cached body body);
+    subst = (fun cached f pairs id ->
+        let prs = List.map (fun (v, e) -> (nat v, e.Model.eref)) pairs in
+        let body gt cget cadd s cc = Model.substitute_edge gt cget cadd s cc f.Model.eref prs (n_of_int id) in
+        go cached body body) }
+
+let bcdd_engine () : engine =
+  let snap0 = ref None and cur = ref None in
+  let cache = ref (Hashtbl.create 1024) in
+  let n_of s = int_of_nat (Model.nlevels s) in
+  let cube lt cget cadd (s : Model.snap) cc pos neg =
+    let n = n_of s in
+    let fuel = nat (n + 1) in
+    let st = ref (match Model.cmk_const s true with Some t -> Some (s, cc, t) | None -> None) in
+    for v = n - 1 downto 0 do
+      let lit = if (pos lsr v) land 1 = 1 then Some false else if (neg lsr v) land 1 = 1 then Some true else None in
+      match !st, lit with
+      | Some (s1, c1, acc), Some negd ->
+        (match Model.cmk_var s1 (nat v) negd with
+         | Some (s2, x) ->
+           (match Model.capply_op lt cget cadd fuel s2 c1 Model.OAnd x acc with
+            | Some ((s3, c3), r) -> st := Some (s3, c3, r)
+            | None -> st := None)
+         | None -> st := None)
+      | _ -> ()
+    done;
+    !st in
+  let go cached (f : (Model.edge -> Model.edge -> bool) -> _ -> _ -> Model.snap -> _ -> ((Model.snap * _) * Model.edge) option)
+         (f0 : (Model.edge -> Model.edge -> bool) -> _ -> _ -> Model.snap -> unit -> ((Model.snap * unit) * Model.edge) option) =
+    if cached then
+      (match !cur with
+       | None -> None
+       | Some s ->
+         (match f lt_fwd hget hadd s !cache with
+          | Some ((s', _), r) -> cur := Some s'; Some (s', r)
+          | None -> None))
+    else
+      (match !snap0 with
+       | None -> None
+       | Some s -> (match f0 lt_rev Model.enc_get Model.enc_add s () with Some ((s', _), r) -> Some (s', r) | None -> None)) in
+  { hyp = Model.bcok_b;
+    reset = (fun s -> snap0 := Some s; cur := Some s; cache := Hashtbl.create 1024);
+    quant = (fun cached q f mask ->
+        let body lt cget cadd s cc = match cube lt cget cadd s cc mask 0 with
+          | Some (s1, c1, vars) -> Model.cquant_edge lt cget cadd s1 c1 q f vars | None -> None in
+        go cached body body);
+    aquant = (fun cached q o f g mask ->
+        let body lt cget cadd s cc = match cube lt cget cadd s cc mask 0 with
+          | Some (s1, c1, vars) -> Model.capply_quant_edge lt cget cadd s1 c1 q o f g vars | None -> None in
+        go cached body body);
+    restr = (fun cached f pos neg ->
+        let body lt cget cadd s cc = match cube lt cget cadd s cc pos neg with
+          | Some (s1, c1, vars) -> Model.crestrict_edge cget cadd s1 c1 f vars | None -> None in
+        go cached body body);
+    subst = (fun cached f pairs id ->
+        let prs = List.map (fun (v, e) -> (nat v, e)) pairs in
+        let body lt cget cadd s cc = Model.csubstitute_edge lt cget cadd s cc f prs (n_of_int id) in
+        go cached body body) }
 
 let () =
   iter_cases stdin (fun c ->
       let kname = match param c "kind" with Some k -> k | None -> "bdd" in
-      if kname <> "bdd" then (stat "c04m_skipped_cases" 1; verdict_ok c)
+      if kname <> "bdd" && kname <> "bcdd" then (stat "c04m_skipped_cases" 1; verdict_ok c)
       else begin
+      let eng = if kname = "bdd" then bdd_engine () else bcdd_engine () in
+      let tag = if kname = "bdd" then "c04m_bdd_" else "c04m_bcdd_" in
       let ver : (int, int) Hashtbl.t = Hashtbl.create 64 in
       let epoch = ref 0 in
       let count s = try Hashtbl.find ver s with Not_found -> 0 in
@@ -76,114 +199,73 @@ let () =
       in
 
       let resolve (ps : psnap) =
-        let n = Array.length ps.l2v in
-        let fuel = nat (n + 1) in
         let htab : (int, Model.edge) Hashtbl.t = Hashtbl.create (2 * List.length ps.handles + 1) in
         List.iter (fun (sl, e) -> Hashtbl.replace htab sl e) ps.handles;
-        let ref_of sl = match Hashtbl.find_opt htab sl with Some e -> Some e.Model.eref | None -> None in
-        let hyp_ok = lazy (Model.bdd_ok_b ps.snap) in
-        (* the model's state for this snapshot window *)
-        let cur = ref ps.snap in
-        let cache : cache = Hashtbl.create 1024 in
-        (* cube of the literals (pos, neg masks), built like the harness does *)
-        let cube gt cget cadd (s : Model.snap) cc (pos : int) (neg : int) =
-          let st = ref (Some (s, cc, None)) in
-          (match Model.mk_const s true with
-           | Some t -> st := Some (s, cc, Some t)
-           | None -> st := None);
-          for v = n - 1 downto 0 do
-            let lit = if (pos lsr v) land 1 = 1 then Some false else if (neg lsr v) land 1 = 1 then Some true else None in
-            match !st, lit with
-            | Some (s1, c1, Some acc), Some negd ->
-              (match Model.mk_var s1 (nat v) negd with
-               | Some (s2, x) ->
-                 (match Model.apply_bin gt cget cadd fuel s2 c1 Model.OAnd x acc with
-                  | Some ((s3, c3), r) -> st := Some (s3, c3, Some r)
-                  | None -> st := None)
-               | None -> st := None)
-            | _ -> ()
-          done;
-          match !st with Some (s1, c1, Some acc) -> Some (s1, c1, acc) | _ -> None
-        in
-        let compare_result pstep what res (d : Model.ref) =
+        let edge_of sl = Hashtbl.find_opt htab sl in
+        let hyp_ok = lazy (eng.hyp ps.snap) in
+        eng.reset ps.snap;
+        let compare_result pstep what res (d : Model.edge) =
           match res with
           | None -> fail pstep "corr" (Printf.sprintf "%s: the model is undefined on a snapshot that satisfies the hypotheses" what)
-          | Some ((s', _), r) ->
-            if Model.ref_eqb r d then stat "c04m_same_ref" 1
+          | Some (s', r) ->
+            if Model.edge_eqb r d then stat (tag ^ "same_edge") 1
             else (
-              let e r = { Model.eref = r; Model.etag = false } in
-              match value_table { ps with snap = s' } (e r), value_table ps (e d) with
+              match value_table { ps with snap = s' } r, value_table ps d with
               | Some tm, Some ti when tm <> ti ->
                 fail pstep "prop"
                   (Printf.sprintf "%s: result table %s, the verified model computes %s" what (show_vt ti) (show_vt tm))
               | Some _, Some _ ->
-                fail pstep "corr" (Printf.sprintf "%s: implementation returned %s, model %s (same function)" what (show_ref d) (show_ref r))
+                fail pstep "corr" (Printf.sprintf "%s: implementation returned %s, model %s (same function)" what (show_edge d) (show_edge r))
               | _ -> fail pstep "corr" (Printf.sprintf "%s: interpretation of the result undefined" what))
         in
-        (* run [f] once with the threaded state and the hash-table cache, and (every 8th
-           operation) once more from the plain snapshot without cache, reverse operand order *)
-        let run pstep what (d : Model.ref) f f0 =
+        let run pstep what (d : Model.edge) (f : bool -> (Model.snap * Model.edge) option) =
           incr counter;
-          let res = f gt_fwd hget hadd !cur cache in
-          (match res with Some ((s', _), _) -> cur := s' | None -> ());
-          compare_result pstep what res d;
+          compare_result pstep what (f true) d;
           if !counter land 7 = 0 then (
-            stat "c04m_nocache_rev" 1;
-            compare_result pstep (what ^ " (no cache, reverse operand order)") (f0 gt_rev Model.nc_get Model.nc_add ps.snap ()) d)
+            stat (tag ^ "nocache_rev") 1;
+            compare_result pstep (what ^ " (no cache, reverse operand order)") (f false) d)
         in
         List.iter
           (fun p ->
             let fresh = List.for_all (fun (sl, v) -> version sl = v) p.pver in
             if not fresh then stat "c04m_unresolved" 1
-            else if not (Lazy.force hyp_ok) then fail p.pstep "corr" "the snapshot does not satisfy the hypothesis of the C04 theorems (bdd_ok_b)"
+            else if not (Lazy.force hyp_ok) then
+              fail p.pstep "corr" "the snapshot does not satisfy the hypothesis of the C04 theorems (bdd_ok_b / bcok_b)"
             else (
               let what = String.concat " " p.ptoks in
               match p.ptoks with
               | [ (("EXISTS" | "FORALL" | "UNIQUE") as q); dst; a; mask ] ->
-                (match ref_of (slot_of a), ref_of (slot_of dst) with
+                (match edge_of (slot_of a), edge_of (slot_of dst) with
                  | Some fa, Some d ->
-                   stat "c04m_model_quant" 1;
+                   stat (tag ^ "quant") 1;
                    let q = match q with "EXISTS" -> Model.QExists | "FORALL" -> Model.QForall | _ -> Model.QUnique in
                    let mask = int_of_string mask in
-                   let body gt cget cadd s cc =
-                     match cube gt cget cadd s cc mask 0 with
-                     | Some (s1, c1, vars) -> Model.quant_edge gt cget cadd s1 c1 q fa vars
-                     | None -> None in
-                   run p.pstep what d body body
+                   run p.pstep what d (fun cached -> eng.quant cached q fa mask)
                  | _ -> stat "c04m_unresolved" 1)
               | [ (("AEX" | "AFA" | "AUQ") as q); op; dst; a; b; mask ] ->
-                (match ref_of (slot_of a), ref_of (slot_of b), ref_of (slot_of dst), bop_of op with
+                (match edge_of (slot_of a), edge_of (slot_of b), edge_of (slot_of dst), bop_of op with
                  | Some fa, Some fb, Some d, Some o ->
-                   stat "c04m_model_apply_quant" 1;
+                   stat (tag ^ "apply_quant") 1;
                    let q = match q with "AEX" -> Model.QExists | "AFA" -> Model.QForall | _ -> Model.QUnique in
                    let mask = int_of_string mask in
-                   let body gt cget cadd s cc =
-                     match cube gt cget cadd s cc mask 0 with
-                     | Some (s1, c1, vars) -> Model.apply_quant_edge gt cget cadd s1 c1 q o fa fb vars
-                     | None -> None in
-                   run p.pstep what d body body
+                   run p.pstep what d (fun cached -> eng.aquant cached q o fa fb mask)
                  | _ -> stat "c04m_unresolved" 1)
               | [ "RESTRICT"; dst; a; pos; neg ] ->
-                (match ref_of (slot_of a), ref_of (slot_of dst) with
+                (match edge_of (slot_of a), edge_of (slot_of dst) with
                  | Some fa, Some d ->
-                   stat "c04m_model_restrict" 1;
+                   stat (tag ^ "restrict") 1;
                    let pos = int_of_string pos and neg = int_of_string neg in
-                   let body gt cget cadd s cc =
-                     match cube gt cget cadd s cc pos neg with
-                     | Some (s1, c1, vars) -> Model.restrict_edge cget cadd s1 c1 fa vars
-                     | None -> None in
-                   run p.pstep what d body body
+                   run p.pstep what d (fun cached -> eng.restr cached fa pos neg)
                  | _ -> stat "c04m_unresolved" 1)
               | [ "SUBST"; dst; a; _ ] ->
-                (match ref_of (slot_of a), ref_of (slot_of dst), p.psub with
+                (match edge_of (slot_of a), edge_of (slot_of dst), p.psub with
                  | Some fa, Some d, Some (id, pairs) ->
-                   let prs = List.map (fun (v, sl) -> (v, ref_of sl)) pairs in
+                   let prs = List.map (fun (v, sl) -> (v, edge_of sl)) pairs in
                    if List.exists (fun (_, r) -> r = None) prs then stat "c04m_unresolved" 1
                    else (
-                     stat "c04m_model_subst" 1;
-                     let prs = List.map (fun (v, r) -> (nat v, Option.get r)) prs in
-                     let body gt cget cadd s cc = Model.substitute_edge gt cget cadd s cc fa prs (n_of_int id) in
-                     run p.pstep what d body body)
+                     stat (tag ^ "subst") 1;
+                     let prs = List.map (fun (v, r) -> (v, Option.get r)) prs in
+                     run p.pstep what d (fun cached -> eng.subst cached fa prs id))
                  | _ -> stat "c04m_unresolved" 1)
               | _ -> ()))
           (List.rev !pending);
@@ -208,7 +290,7 @@ let () =
                 incr next_id;
                 Hashtbl.replace substs (int_of_string sid) (!next_id, prs)
               | [ "DROPSUBST"; sid ] -> Hashtbl.remove substs (int_of_string sid)
-              | [ ("EXISTS" | "FORALL" | "UNIQUE" | "RESTRICT" | "SUBST"); dst; a; _ ]
+              | [ ("EXISTS" | "FORALL" | "UNIQUE" | "SUBST"); dst; a; _ ]
               | [ "RESTRICT"; dst; a; _; _ ]
               | [ ("AEX" | "AFA" | "AUQ"); _; dst; a; _; _ ] ->
                 let srcs = a :: (match toks with [ _; _; _; _; b; _ ] -> [ b ] | _ -> []) in
